@@ -726,7 +726,7 @@ func (x *dbExec) window(db *simpledb.DB, s dbStep) {
 	note := func(what, by string, still bool) {
 		rec.emit(M{"t": "blocked", "what": what, "by": by, "still": still})
 	}
-	const wait = 5 * time.Second
+	const wait = 30 * time.Second
 	switch s.V {
 	case "install-between-reads":
 		x.step(db, dbStep{Op: "put", K: 0, V: "w1a", Pad: 5}, 0)
@@ -745,7 +745,7 @@ func (x *dbExec) window(db *simpledb.DB, s dbStep) {
 		g := spawn(func() { x.get(db, 0, 1, "bytes") })
 		ctl.await("get.between", 1, wait)
 		ctl.release("flush.written")
-		for i := 0; i < 5000 && rec.countOf("install") == installs; i++ {
+		for i := 0; i < 100000 && rec.countOf("install") == installs; i++ {
 			time.Sleep(200 * time.Microsecond)
 		}
 		rec.emit(M{"t": "note", "name": fmt.Sprintf("install landed between the two reads: %v", rec.countOf("install") > installs)})
